@@ -306,7 +306,7 @@ def project(root, reg):
                 out[lab] = [lab, "d", [[n, reg.label(x)] for n, x in py], [[n, reg.label(x)] for n, x in cm]]
         elif not isinstance(o, L["ConfigNode"]):
             lab = reg.label(o)
-            out[lab] = [lab, "raw", [], []]
+            out[lab] = [lab, "raw", ["L" if isinstance(o, list) else "D" if isinstance(o, dict) else "S"], []]
     return [out[k] for k in sorted(out)]
 
 
@@ -435,8 +435,10 @@ def judge_line(j, starts):
     evm = evtok == mev
     errm = j["e"] == "?" or not ops or exc == j["e"]
     if rbad:
-        if match and evm and rbad <= set(j["bad"]):
-            return "known", {"fired": j["f"], "bad": sorted(rbad)}
+        # explained: the state is the one the as-is machine predicts and everything broken on the real objects is broken in
+        # the prediction (an evaluation result that differs on an already inconsistent state is only drift)
+        if match and rbad <= set(j["bad"]):
+            return "known", {"fired": j["f"], "bad": sorted(rbad), "evdrift": not evm}
         return "viol", {"observed": proj, "observed_exc": exc, "observed_eval": evtok, "broken": sorted(rbad),
                         "expected": j["s"], "expected_exc": j["e"], "expected_eval": mev, "expected_broken": j["bad"],
                         "fired": j["f"]}
@@ -452,7 +454,7 @@ _W = {}
 def _replay_chunk(args):
     lines, starts = args
     res = {"n": 0, "ok": 0, "known": 0, "drift": 0, "viol": 0, "nontrivial": 0, "bad": [], "knownf": {}, "steps": 0, "sample": None,
-           "popitem_agree": 0}
+           "popitem_agree": 0, "evdrift": 0}
     for ln in lines:
         j = json.loads(ln)
         res["n"] += 1
@@ -464,6 +466,8 @@ def _replay_chunk(args):
         if j["ops"] and j["ops"][-1][0] == "d.popitem" and j["e"] == "TypeError" and status in ("ok", "known"):
             res["popitem_agree"] += 1
         if status == "known":
+            if info["evdrift"]:
+                res["evdrift"] += 1
             for f in info["fired"]:
                 slot = res["knownf"].setdefault(f, [0, None])
                 slot[0] += 1
@@ -504,9 +508,9 @@ def replay_start(lines, pool):
 def replay_finish(started, timeout):
     starts, res = started
     agg = {"n": 0, "ok": 0, "known": 0, "drift": 0, "viol": 0, "nontrivial": 0, "bad": [], "knownf": {}, "steps": 0, "samples": [],
-           "popitem_agree": 0}
+           "popitem_agree": 0, "evdrift": 0}
     for r in res.get(timeout=timeout):
-        for k in ("n", "ok", "known", "drift", "viol", "nontrivial", "steps", "popitem_agree"):
+        for k in ("n", "ok", "known", "drift", "viol", "nontrivial", "steps", "popitem_agree", "evdrift"):
             agg[k] += r[k]
         agg["bad"].extend(r["bad"])
         for f, (cnt, wit) in r["knownf"].items():
@@ -534,7 +538,7 @@ def minimal_bad(bad):
 # --------------------------------------------------------------------------------------------------
 # cfgs
 # --------------------------------------------------------------------------------------------------
-def cfg_container(sw, idx, ren, keys, newkeys, kinds, ops, starts, tgt, maxlen, upd, invariants, emit):
+def cfg_container(sw, idx, ren, keys, newkeys, kinds, ops, starts, tgt, maxlen, upd, invariants, emit, sim=False):
     lines = ["SPECIFICATION Spec", "CONSTANTS"]
     for s in SWITCHES:
         lines.append(f"  {s} = {'TRUE' if s in sw else 'FALSE'}")
@@ -544,7 +548,7 @@ def cfg_container(sw, idx, ren, keys, newkeys, kinds, ops, starts, tgt, maxlen, 
               "  ValKinds = {" + ", ".join('"%s"' % k for k in kinds) + "}",
               f"  OpsOn <- {ops}",
               "  StartIds = {" + ", ".join(str(x) for x in starts) + "}",
-              f'  Tgt = "{tgt}"', f"  MaxLen = {maxlen}", f"  UpdShapes <- {upd}"]
+              f'  Tgt = "{tgt}"', f"  MaxLen = {maxlen}", f"  UpdShapes <- {upd}", f"  Sim = {'TRUE' if sim else 'FALSE'}"]
     for i in invariants:
         lines.append(f"INVARIANT {i}")
     if emit:
@@ -971,7 +975,7 @@ def run(prop, tier, seed, replay, keep):
             jobs.insert(2, ("asis/simulate-L8", "MC_AyContainer",
                             cfg_container(set(ON), invariants=[], emit=True, idx="IdxFull", ren="RenEdge", keys=["a", "b", "c", "_x"],
                                           newkeys=["a", "z"], kinds=["S", "L", "D"], ops="AllOps", starts=[1, 3, 5, 6], tgt="both", maxlen=8,
-                                          upd="UpdFull"), 6, "num=6000", 10))
+                                          upd="UpdFull", sim=True), 6, "num=1000", 10))
         for sw, invs, kw in MUTATIONS:
             jobs.append(("mutation/" + sw, "MC_AyContainer",
                          cfg_container({sw}, invariants=PROP_INVS[:-1] + ["Inv_PopitemWorks"], emit=False, **kw), 2, None, None))
@@ -1015,8 +1019,6 @@ def run(prop, tier, seed, replay, keep):
             ri, ra = byname["intended/" + name], byname["asis/" + name]
             if ri["violated"]:
                 raise tlc.TLCError(f"the intended machine violates {ri['violated']} on {name}:\n" + ri["out"][-3000:])
-            if ri["distinct"] != ra["distinct"]:
-                raise tlc.TLCError(f"intended / as-is runs explored different numbers of behaviours on {name}: {ri['distinct']} / {ra['distinct']}")
         for sw, invs, kw in MUTATIONS:
             r = byname["mutation/" + sw]
             ok = bool(r["violated"]) and set(r["violated"]) <= (set(PROP_INVS[:-1]) if sw != "PopitemBroken" else {"Inv_PopitemWorks"})
@@ -1046,6 +1048,7 @@ def run(prop, tier, seed, replay, keep):
                     nd += 1
                     if nd <= 3:
                         print("DRIFT", name, json.dumps({"calls": describe(agg["starts"][st], ops), **info})[:1500])
+            nd += agg["evdrift"]
             drift += nd
             popitem_agree += agg["popitem_agree"]
             for f, (cnt, wit) in agg["knownf"].items():
@@ -1119,7 +1122,7 @@ def run(prop, tier, seed, replay, keep):
                     violations.append(write_replay("trace", dict(start=tr["start"], ops=ops, calls=describe(tr["start"], ops), seed=tr["seed"],
                                                                  broken=tr["ev"][k - 1]["rb"], observed=tr["ev"][k - 1]["s"],
                                                                  observed_eval=tr["ev"][k - 1]["ev"], tlc_verdict=v)))
-            elif v["verdict"] != "ok":
+            elif v["verdict"] != "ok":      # state / eval / exception class differ while the property is not (newly) broken
                 tdrift += 1
                 if tdrift <= 3:
                     print("DRIFT trace", tr["tid"], json.dumps(v)[:1200], json.dumps(tr["ev"][v["vstep"] - 1])[:1200])
